@@ -19,8 +19,9 @@ func init() {
 			"leads back to the loop head, and the only error return is after the loop; (client-order) the loops walk the configured client slice itself, which is written only by the constructors; (entry-per-success) in " +
 			"encryptAllRegions every successful regional response and the generating region's own ciphertext are sent on the result channel, which is closed only after WaitGroup.Wait, and EncryptKey drains it before marshalling; " +
 			"(wipe) the plaintext data key is wiped on every path (C10.wipe / C10.wipe-not-early); (sibling-envelope) the v1 and v2 envelope structs have identical JSON tags and field types, so envelopes are exchangeable. " +
-			"Which regions fail, and the preferred-first ordering established by sorting, are value-level and not decided.",
-		NotDecided:  []string{"which subset of regions fails at run time", "that sortClients / Build really put the preferred region first (value-level ordering)", "byte identity of unwrapped keys", "AWS SDK behaviour"},
+			"(preferred-first) the v1 comparator is false for (other, preferred) and true for (preferred, other) — a finite case analysis over its two region tests — and v2 Build prepends exactly on the region == preferredRegion edge; " +
+			"(no-loop-variable-alias) no pointer to a per-loop variable is stored per region (the module builds with go 1.21 loop semantics). Which regions fail is a run-time matter and not decided.",
+		NotDecided:  []string{"which subset of regions fails at run time", "the order among the non-preferred regions", "byte identity of unwrapped keys", "AWS SDK behaviour"},
 		Assumptions: []string{"range over a slice visits indices in ascending order", "the AWS SDK clients are opaque"},
 		Tech:        "static analysis: loop-structure path rules (failure edges return to the loop head), must-release wipe dataflow, struct-tag sibling agreement between the two plugins",
 		NeedU1:      true,
